@@ -1739,7 +1739,10 @@ func genConcurrent(r *common.Rand, kind string) *Case {
 	size := 1 + r.Intn(3000)
 	n := 1 + r.Intn(4)
 	if (kind == "oci" || kind == "mem" || kind == "file" || strings.HasPrefix(kind, "lim")) && r.Chance(2, 3) { // small enough for the model's exhaustive interleaving
-		n = 1 + r.Intn(2)
+		n = 1 // two racers; three (up to 1680 interleavings in the model) in a quarter of the cases
+		if r.Chance(1, 4) {
+			n = 2
+		}
 		size = 1 + r.Intn(120)
 	}
 	data := randBytes(r, size)
